@@ -2,6 +2,7 @@ import PegVerif.Proofs.RefineTop
 import PegVerif.Proofs.SemLemmas
 import PegVerif.Proofs.LinkLemmas
 import PegVerif.Proofs.AlwaysLemmas
+import PegVerif.Proofs.TotalLemmas
 /-
   C01 — the generated parser recognises exactly the grammar's PEG language.
 
@@ -98,6 +99,27 @@ theorem C01_generated_parser (G : Grammar) (o : Opts) (cfg : Cfg) (inp : List Sy
     (compileAll_world hsw hinl hast hcfg hinp hG hL (fun _ h => alwaysSucceeds_sound hplain h))
     hfind hev hrun
 
+/-- **C01, absolute form** (Ford's totality theorem `Eval_total` + R): for a grammar that passes the
+    decidable well-formedness check `WFB` (no left recursion, no `*`/`+` over an expression that can
+    succeed without consuming, every name defined) the semantics assigns an outcome to every rule at
+    position 0 of every input, a run of the emitted function exists, and every run returns exactly that
+    verdict and stops at the end of exactly the matched prefix. -/
+theorem C01_wellformed (G : Grammar) (o : Opts) (cfg : Cfg) (inp : List Sym)
+    (hwf : WFB G = true)
+    (hinl : o.inline = false) (hsw : o.switch = false) (hast : o.ast = true) (hcfg : cfg.ast = true)
+    (hinp : ∀ c ∈ inp, c ≠ END) (hG : GrammarOK G = true) (hL : LinkedOK G = true) (hplain : G.plain)
+    {n cr} (hfind : (compileAll o G).find n = some cr) :
+    ∃ res evs, Eval G cfg.rho inp (.name n) 0 res evs ∧
+      (∃ out s', Exec (compileAll o G) cfg inp cr 0 St.init Frame.empty (out, s')) ∧
+      ∀ out s', Exec (compileAll o G) cfg inp cr 0 St.init Frame.empty (out, s') →
+        (out = .ret true ↔ ∃ p' f, res = .ok p' f) ∧ (∀ p' f, res = .ok p' f → s'.pos = p') ∧
+        (out = .ret false ↔ res = .fail) ∧ out ≠ .panic := by
+  have hW := compileAll_world (cfg := cfg) (inp := inp) hsw hinl hast hcfg hinp hG hL
+    (fun _ h => alwaysSucceeds_sound hplain h)
+  obtain ⟨_, b, _, _, hb, _⟩ := hW.rules n cr hfind
+  obtain ⟨res, evs, hev⟩ := Eval_total (ρ := cfg.rho) hwf inp n b hb 0 (Nat.zero_le _)
+  exact ⟨res, evs, hev, C01_run_exists hW hfind hev, fun out s' hrun => C01_refines hW hfind hev hrun⟩
+
 /-! Non-vacuity: a grammar using sequence, choice, `*`, `!`, rule reference and a capture has
     derivations, found by the interpreter and certified by `C01_oracle_sound`. -/
 def exG : Grammar := { rules := [
@@ -112,9 +134,9 @@ example : ∃ evs, Eval exG (fun _ _ => true) [97, 99] (.name "S") 0 .fail evs :
 
 /-- The hypotheses of `C01_generated_parser` are satisfiable: the example grammar passes both checks
     and both of its rules get a function. -/
-example : GrammarOK exG = true ∧ LinkedOK exG = true ∧ exG.plain ∧ ((compileAll {} exG).find "S").isSome = true ∧
+example : WFB exG = true ∧ GrammarOK exG = true ∧ LinkedOK exG = true ∧ exG.plain ∧ ((compileAll {} exG).find "S").isSome = true ∧
     ((compileAll {} exG).find "A").isSome = true :=
-  ⟨by decide, by decide, Grammar.plain_of_all (by decide), by decide, by decide⟩
+  ⟨by decide, by decide, by decide, Grammar.plain_of_all (by decide), by decide, by decide⟩
 
 end PegVerif
 
@@ -125,3 +147,4 @@ end PegVerif
 #print axioms PegVerif.C01_run_exists
 #print axioms PegVerif.C01_parseF
 #print axioms PegVerif.C01_generated_parser
+#print axioms PegVerif.C01_wellformed
